@@ -1,6 +1,7 @@
 import Beetswap.Proofs.ClientQuery
 import Beetswap.Proofs.Server
 import Beetswap.Generated
+import Beetswap.Proofs.ServerLinkThms
 /-!
 # C13 — State held per peer and per query is bounded and released
 -/
@@ -61,5 +62,25 @@ theorem retained_released (x : Sys) (outs : List Out) (h : Reach x outs)
     (hq : ∀ q, presence x.s q = 0) (hp : x.s.peers.isEmpty = true) (ht : x.s.tasks = []) :
     retained x.s = x.s.newBlocks.length :=
   Proofs.ClientQuery.retained_released x outs h hq hp ht
+
+
+/-! ### The whole pipeline: server behaviour, swarm routing (`NotifyHandler::Any`), one handler per
+connection (`Model/ServerLink`), for every schedule -/
+section Pipeline
+open Beetswap.ServerLink Beetswap.ServerSink
+open Beetswap.Proofs.ServerLink (Holds Connected ids deliverVia okAns)
+open Beetswap.Proofs.ServerSink (pendingOf)
+
+/-- C13, server side, for every schedule of connections opening and closing: the server half has
+a record for a peer exactly while one of the peer's connections is in the swarm's pool. -/
+theorem record_iff_connected (s : ServerLink.State) (hr : ServerLink.Reachable s) (p : Nat) :
+    p ∈ s.sv.wl ↔ Connected s.links p :=
+  Proofs.ServerLink.record_iff_connected s hr p
+
+theorem record_dropped_with_last_connection (s : ServerLink.State) (hr : ServerLink.Reachable s) (p : Nat)
+    (hall : ∀ (c : Nat) (l : Link), s.links[c]? = some l → l.peer = p → l.gone = true) : p ∉ s.sv.wl :=
+  Proofs.ServerLink.record_dropped_with_last_connection s hr p hall
+
+end Pipeline
 
 end Beetswap.Props.C13
